@@ -223,7 +223,7 @@ def run(prog: Program, rep: Report, tier: str) -> None:
             okw = v is not None and isinstance(v, tuple) and v[:2] == ("app", "int") and isinstance(v[2], tuple) and v[2][:2] == ("app", "time.mktime") \
                 and isinstance(v[2][2], tuple) and v[2][2][:2] == ("app", "time.strptime") and T.is_c(v[2][2][3]) and str(v[2][2][3][1]).endswith(" %H:%M")
             if not okw and v is not None and isinstance(v, tuple) and v[:2] == ("app", "int") and isinstance(v[2], tuple) and v[2][:2] == ("app", "time.mktime") \
-                    and not (isinstance(v[2][2], tuple) and v[2][2][:2] == ("app", "time.strptime")):
+                    and not (isinstance(v[2][2], tuple) and v[2][2][:2] == ("app", "time.strptime")) and __import__("sa.props.c11", fromlist=["dst_flag_unknown"]).dst_flag_unknown(v[2][2]):
                 rep.undecided("R10.4", f"encoder of {role}", wherew, f"writer encodes {role} as LE32 of {T.show(v)[:160]}: int(time.mktime(..)) of a time tuple built another way than strptime - a form this rule does not compare")
                 continue
             rep.check(okw, "R10.4", f"encoder of {role}", wherew,
